@@ -466,7 +466,10 @@ pub fn gen(r: &mut Rng, out: &mut Out, thorough: bool, id: &mut u64) {
                 _ => gen_cert(&mut cr, out),
             };
             out.stat(&format!("kind_{}", kind), 1);
-            out.stat(&format!("unproved_codec_{}", kind), 1);
+            // D16b: `adv` (AdvData + RecoveryAdvData) is fully modelled now (Model/Codec/BleAdv.lean, BleRecovery.lean)
+            if kind != "adv" {
+                out.stat(&format!("unproved_codec_{}", kind), 1);
+            }
             super::emit_case(out, *id, kind, ops);
             *id += 1;
         }
